@@ -6,6 +6,7 @@ import (
 	"fmt"
 
 	logac "berty.tech/go-ipfs-log/accesscontroller"
+	"berty.tech/go-ipfs-log/identityprovider"
 	"github.com/libp2p/go-libp2p/core/crypto"
 )
 
@@ -31,7 +32,12 @@ func VerifyEntryIdentity(entry logac.LogEntry) error {
 	}
 
 	if identity.Type != "orbitdb" {
-		// other identity types are verified by their own provider
+		if !identityprovider.IsSupported(identity.Type) {
+			// nothing can vouch for the id of an identity whose type has no registered provider
+			return fmt.Errorf("identity type %q is not supported", identity.Type)
+		}
+
+		// other registered identity types are verified by their own provider
 		return nil
 	}
 
